@@ -11,6 +11,10 @@ Fam == CASE Family = "derived-quick" -> DerivedFamily(FALSE)
          [] Family = "core-quick"    -> CoreFamily(2)
          [] Family = "core-full"     -> CoreFamily(3)
          [] Family = "fault"         -> FaultFamily
+         [] Family = "tail-fin-1"    -> TailFinFamily(1, {0, 1, 3})
+         [] Family = "tail-fin-2"    -> TailFinFamily(2, {3})
+         [] Family = "tail-inf-1"    -> TailInfFamily(1)
+         [] Family = "tail-inf-2"    -> TailInfFamily(2)
 FamSeq == SetToSeq(Fam)
 
 VARIABLES pid, pc, m, results
@@ -94,6 +98,11 @@ FaultLaw ==
         /\ results[n - 2].r = [k |-> "value", v |-> MkInt(7)]
         /\ results[n].r = [k |-> "value", v |-> MkInt(pre + 2)]
         /\ \A i \in 1..(n - 5) : results[i].r.k # "error"
+
+(* C02: a loop written with tail calls computes the same as the bounded iteration: it returns N *)
+TailResultLaw ==
+  (Done /\ FamSeq[pid].tag[1] = "tail") =>
+     results[Len(results)].r = [k |-> "value", v |-> MkInt(FamSeq[pid].tag[5])]
 
 Emit == Done => PrintT(<<"VEC", ToJson([forms |-> Forms, tag |-> FamSeq[pid].tag, results |-> results])>>)
 =============================================================================
